@@ -201,6 +201,8 @@ func c02Gen(c *Ctx) {
 	ptrToPtrKeepsNull(c)
 	decoderUsesNumber(c)
 	layoutAgreement(c)
+	// an invalid document must not be executed from the cache on its second arrival (C03)
+	c03Cache(c)
 }
 
 // errorFlow classifies what happens to the error result of call in fn:
